@@ -437,6 +437,10 @@ func checkC09(c *Ctx) {
 	}
 	c.checkLockPairing("O3 lock-pairing", pkgs, eng, 15)
 	c.checkLockOrder("O3 lock-order", pkgs, eng)
+	// "everything recorded through any of the returned handles is delivered", whatever report pass runs
+	// concurrently: the lock-free protocols of the handles themselves (shared with C01 O2/O3 and C02 O2)
+	c.shared(checkC02, map[string]string{"O2 delivery": "O5 gauge-protocol", "O2 update-order": "O5 gauge-protocol", "O2 raise-after-store": "O5 gauge-protocol", "O4 flag-writers": "O5 gauge-protocol"})
+	c.shared(checkC01, map[string]string{"O2 delta-rmw": "O5 counter-protocol", "O3 delivery": "O5 counter-protocol"})
 	_ = token.NoPos
 }
 
